@@ -1496,6 +1496,10 @@ package go_clipper2
 //@   ensures [front-duplicate-skipped] (old(ae == ae.outrec.frontEdge) && pt == old(ae.outrec.pts.pt)) ==> (result == old(ae.outrec.pts) && ae.outrec.pts == old(ae.outrec.pts) && old(ae.outrec.pts).next == old(ae.outrec.pts.next))
 //@   ensures [back-duplicate-skipped] (!old(ae == ae.outrec.frontEdge) && pt == old(ae.outrec.pts.next.pt)) ==> (result == old(ae.outrec.pts.next) && ae.outrec.pts == old(ae.outrec.pts))
 //@   ensures [inserted-between-front-and-back] !((old(ae == ae.outrec.frontEdge) && pt == old(ae.outrec.pts.pt)) || (!old(ae == ae.outrec.frontEdge) && pt == old(ae.outrec.pts.next.pt))) ==> (result != nil && result.pt == pt && result.outrec == ae.outrec && linked(old(ae.outrec.pts), result) && linked(result, old(ae.outrec.pts.next)) && ae.outrec.pts == ite(old(ae == ae.outrec.frontEdge), result, old(ae.outrec.pts)))
+//@   ensures [ring-kept] ae.outrec == old(ae.outrec) && ae.outrec.pts != nil && ae.outrec.pts.next != nil && ae.outrec.frontEdge == old(ae.outrec.frontEdge) && ae.outrec.backEdge == old(ae.outrec.backEdge)
+//@   ensures [other-nodes-untouched] forallp(q, OutPt, (q != old(ae.outrec.pts) && q != old(ae.outrec.pts.next) && q != result) ==> (q.next == old(q.next) && q.prev == old(q.prev)))
+//@   ensures [other-records-untouched] forallp(r, OutRec, r != old(ae.outrec) ==> r.pts == old(r.pts))
+//@   ensures [new-node-is-fresh] !((old(ae == ae.outrec.frontEdge) && pt == old(ae.outrec.pts.pt)) || (!old(ae == ae.outrec.frontEdge) && pt == old(ae.outrec.pts.next.pt))) ==> fresh(result)
 
 //@ func swapOutrecs
 //@   props C02 C03
@@ -1784,3 +1788,91 @@ package go_clipper2
 //@   props C03 C07
 //@   requires absI(rect.left*pow10(2)) < 2305843009213693952.0 && absI(rect.top*pow10(2)) < 2305843009213693952.0 && absI(rect.right*pow10(2)) < 2305843009213693952.0 && absI(rect.bottom*pow10(2)) < 2305843009213693952.0
 //@   ensures [empty] (rect.bottom <= rect.top || rect.right <= rect.left || len(path) == 0) ==> len(result) == 0
+
+// ---------------------------------------------------------------------------------
+// More list surgery of the sweep (C01, C02, C03, C09): AEL / SEL insertion and removal, joining two
+// output rings, detaching an output ring from its edges
+// ---------------------------------------------------------------------------------
+
+//@ func insertRightEdge
+//@   props C01 C03
+//@   requires ae != nil && ae2 != nil && ae != ae2
+//@   assumes ae.nextInAEL != ae && ae.nextInAEL != ae2
+//@   ensures [inserted-after] ae.nextInAEL == ae2 && ae2.prevInAEL == ae && ae2.nextInAEL == old(ae.nextInAEL)
+//@   ensures [successor-relinked] old(ae.nextInAEL) != nil ==> old(ae.nextInAEL).prevInAEL == ae2
+//@   ensures [predecessor-kept] ae.prevInAEL == old(ae.prevInAEL)
+
+//@ func extractFromSEL
+//@   props C01 C03
+//@   requires ae != nil
+//@   assumes ae.nextInSEL != ae && ae.prevInSEL != ae
+//@   ensures [returns-successor] result == old(ae.nextInSEL)
+//@   ensures [bypassed] (old(ae.nextInSEL) != nil ==> old(ae.nextInSEL).prevInSEL == old(ae.prevInSEL)) && (old(ae.prevInSEL) != nil ==> old(ae.prevInSEL).nextInSEL == old(ae.nextInSEL))
+
+//@ func insertBeforeInSEL
+//@   props C01 C03
+//@   requires ae1 != nil && ae2 != nil && ae1 != ae2
+//@   assumes ae2.prevInSEL != ae2 && ae2.prevInSEL != ae1
+//@   ensures [inserted-before] ae1.nextInSEL == ae2 && ae2.prevInSEL == ae1 && ae1.prevInSEL == old(ae2.prevInSEL)
+//@   ensures [predecessor-relinked] old(ae2.prevInSEL) != nil ==> old(ae2.prevInSEL).nextInSEL == ae1
+
+//@ func uncoupleOutRec
+//@   props C02 C03 C09
+//@   requires ae != nil
+//@   ensures [no-ring-noop] old(ae.outrec) == nil ==> ae.outrec == nil
+//@   ensures [ring-has-no-edges] old(ae.outrec) != nil ==> (old(ae.outrec).frontEdge == nil && old(ae.outrec).backEdge == nil)
+//@   ensures [edges-cold] old(ae.outrec) != nil ==> ((old(ae.outrec.frontEdge) != nil ==> old(ae.outrec.frontEdge).outrec == nil) && (old(ae.outrec.backEdge) != nil ==> old(ae.outrec.backEdge).outrec == nil))
+//@   ensures [points-kept] old(ae.outrec) != nil ==> old(ae.outrec).pts == old(ae.outrec.pts)
+//@   ensures [other-records-untouched] forallp(r, OutRec, r != old(ae.outrec) ==> (r.frontEdge == old(r.frontEdge) && r.backEdge == old(r.backEdge)))
+//@   ensures [other-edges-untouched] forallp(e, Active, (old(ae.outrec) == nil || (e != old(ae.outrec.frontEdge) && e != old(ae.outrec.backEdge))) ==> e.outrec == old(e.outrec))
+
+//@ func swapFrontBackSides
+//@   props C02 C03 C09
+//@   requires outrec != nil
+//@   ensures [sides-swapped] outrec.frontEdge == old(outrec.backEdge) && outrec.backEdge == old(outrec.frontEdge)
+//@   ensures [entry-advanced] (old(outrec.pts) != nil ==> outrec.pts == old(outrec.pts.next)) && (old(outrec.pts) == nil ==> outrec.pts == nil)
+//@   ensures [other-records-untouched] forallp(r, OutRec, r != outrec ==> (r.pts == old(r.pts) && r.frontEdge == old(r.frontEdge) && r.backEdge == old(r.backEdge)))
+
+//@ func clipperBase.startOpenPath
+//@   props C09 C03 C02
+//@   requires ae != nil
+//@   ensures [new-open-ring] result != nil && ae.outrec != nil && ae.outrec.isOpen && ae.outrec.pts == result && result.pt == pt && result.outrec == ae.outrec && result.next == result && result.prev == result
+//@   ensures [side-by-direction] (ae.windDx > 0 ==> (ae.outrec.frontEdge == ae && ae.outrec.backEdge == nil)) && (ae.windDx <= 0 ==> (ae.outrec.frontEdge == nil && ae.outrec.backEdge == ae))
+//@   ensures [registered] len(c.outrecList) == old(len(c.outrecList)) + 1 && c.outrecList[len(c.outrecList)-1] == ae.outrec
+
+//@ func clipperBase.joinOutrecPaths
+//@   props C02 C03 C09
+//@   requires ae1 != nil && ae2 != nil && ae1 != ae2 && ae1.outrec != nil && ae2.outrec != nil && ae1.outrec != ae2.outrec
+//@   requires ae1.localMin != nil && ae1.vertexTop != nil
+//@   requires ae1.outrec.pts != nil && ae2.outrec.pts != nil && ae1.outrec.pts.next != nil && ae2.outrec.pts.next != nil
+//@   requires [opposite-sides] (ae1 == ae1.outrec.frontEdge) != (ae2 == ae2.outrec.frontEdge)
+//@   assumes ae2.outrec.frontEdge != ae1 && ae2.outrec.backEdge != ae1 && !(ae2.outrec.frontEdge == ae2 && ae2.outrec.backEdge == ae2)
+//@   assumes ae1.outrec.pts != ae2.outrec.pts && ae1.outrec.pts != ae2.outrec.pts.next && ae1.outrec.pts.next != ae2.outrec.pts && ae1.outrec.pts.next != ae2.outrec.pts.next
+//@   ensures [rings-spliced] linked(old(ae1.outrec.pts), old(ae2.outrec.pts.next)) && linked(old(ae2.outrec.pts), old(ae1.outrec.pts.next))
+//@   ensures [both-edges-cold] ae1.outrec == nil && ae2.outrec == nil
+//@   ensures [second-ring-has-no-edges] old(ae2.outrec).frontEdge == nil && old(ae2.outrec).backEdge == nil
+//@   ensures [entry-point] (!(ae1.localMin.IsOpen && (ae1.vertexTop.flags & (OpenStart | OpenEnd)) != None)) ==> (old(ae2.outrec).pts == nil && old(ae1.outrec).pts == ite(old(ae1 == ae1.outrec.frontEdge), old(ae2.outrec.pts), old(ae1.outrec.pts)))
+//@   ensures [open-end-hands-the-points-over] (ae1.localMin.IsOpen && (ae1.vertexTop.flags & (OpenStart | OpenEnd)) != None) ==> (old(ae1.outrec).pts == nil && old(ae2.outrec).pts == ite(old(ae1 == ae1.outrec.frontEdge), old(ae2.outrec.pts), old(ae1.outrec.pts)))
+//@   ensures [side-inherited] old(ae1 == ae1.outrec.frontEdge) ==> (old(ae1.outrec).frontEdge == old(ae2.outrec.frontEdge) && old(ae1.outrec).backEdge == old(ae1.outrec.backEdge))
+//@   ensures [side-inherited-back] !old(ae1 == ae1.outrec.frontEdge) ==> (old(ae1.outrec).backEdge == old(ae2.outrec.backEdge) && old(ae1.outrec).frontEdge == old(ae1.outrec.frontEdge))
+//@   ensures [inherited-edge-re-pointed] (old(ae1 == ae1.outrec.frontEdge) && old(ae2.outrec.frontEdge) != nil && old(ae2.outrec.frontEdge) != ae1 && old(ae2.outrec.frontEdge) != ae2) ==> old(ae2.outrec.frontEdge).outrec == old(ae1.outrec)
+
+//@ spec frontOf(ae *Active) bool = ae == ae.outrec.frontEdge
+//@ spec openEnd(ae *Active) bool = ae.localMin.IsOpen && (ae.vertexTop.flags & (OpenStart | OpenEnd)) != None
+//@ spec ownSides(ae *Active) bool = (ae.outrec.frontEdge == ae) != (ae.outrec.backEdge == ae)
+
+// a local maximum closes a ring (both edges on the same record) or joins two rings; afterwards
+// neither edge is hot, and two closed edges on the same side of one record are reported as an error
+//@ func clipperBase.addLocalMaxPoly
+//@   props C02 C03 C09
+//@   nosafety
+//@   requires ae1 != nil && ae2 != nil && ae1 != ae2 && ae1.localMin != nil && ae2.localMin != nil && ae1.vertexTop != nil && ae2.vertexTop != nil
+//@   requires ae1.joinWith == JoinNone && ae2.joinWith == JoinNone && ae1.outrec != nil && ae2.outrec != nil
+//@   requires [closed-edges] !ae1.localMin.IsOpen && !ae2.localMin.IsOpen
+//@   assumes ownSides(ae1) && ownSides(ae2) && (ae1.outrec == ae2.outrec ==> (frontOf(ae1) != frontOf(ae2)))
+//@   assumes ae1.outrec != ae2.outrec ==> (ae2.outrec.frontEdge != ae1 && ae2.outrec.backEdge != ae1 && ae1.outrec.frontEdge != ae2 && ae1.outrec.backEdge != ae2)
+//@   assumes ae1.outrec.pts != nil && ae2.outrec.pts != nil && ae1.outrec.pts.next != nil && ae2.outrec.pts.next != nil
+//@   assumes ae1.outrec != ae2.outrec ==> (ae1.outrec.pts != ae2.outrec.pts && ae1.outrec.pts != ae2.outrec.pts.next && ae1.outrec.pts.next != ae2.outrec.pts && ae1.outrec.pts.next != ae2.outrec.pts.next)
+//@   ensures [same-side-closed-edges-are-an-error] (old(frontOf(ae1) == frontOf(ae2)) && !openEnd(ae1) && !openEnd(ae2)) ==> (result == nil && !c.succeeded)
+//@   ensures [ring-closed] old(ae1.outrec == ae2.outrec) ==> (result != nil && old(ae1.outrec).pts == result && old(ae1.outrec).frontEdge == nil && old(ae1.outrec).backEdge == nil && ae1.outrec == nil && ae2.outrec == nil)
+//@   ensures [closed-rings-joined] (old(ae1.outrec != ae2.outrec) && !ae1.localMin.IsOpen && old(frontOf(ae1) != frontOf(ae2))) ==> (ae1.outrec == nil && ae2.outrec == nil)
